@@ -166,8 +166,12 @@ def blocks(tier):
             out.append((kind, alpha, n, prefix))
 
     # all texts over the full path alphabet through both path-string parsers
-    for L in range(0, (6 if thorough else 5) + 1):
+    for L in range(0, (6 if thorough else 4) + 1):
         add("parse", ALPHA, L, split=4)
+    if not thorough:
+        # length 5 over the full alphabet: the texts that begin a target path (the rest is covered in the thorough tier)
+        add("parse", ALPHA, 4, prefix=".")
+        add("parse", ALPHA, 4, prefix="%")
     # longer texts over the sub-alphabets that matter for the state machine (segment boundaries, quotes, indices)
     add("parse", ALPHA7, 6, split=5)
     add("parse", ALPHA5, 7, split=6)
@@ -343,8 +347,10 @@ def failure_tags(c, o):
             tags.add("template" if ("{{" in text() or "\\}}" in text()) else "other")
         if ast is not None and o["compiled"] != {"ok": [ast]}:
             tags.add("minindex" if o["compiled"] == "panic" and "-9223372036854775808" in text().replace("_", "") else "other")
-        if o["ast"] == "panic" or (ast is None and o["compiled"] == "panic"):
+        if o["ast"] == "panic":
             tags.add("other")
+        elif ast is None and o["compiled"] == "panic":
+            tags.add("minindex" if "-9223372036854775808" in text().replace("_", "") else "other")
     return tags
 
 
